@@ -63,6 +63,7 @@ def run(rep, ctx, tier):
     own = set(f.bodies) - f.closure(eq, None)
     n_sites, n_judged = R17.run(rep, ctx, own, "R17")
     rep.count("R17 search sites", n_sites)
+    rep.count("R17 dedup sites", R17.run_dedup(rep, ctx, own, "R17"))
     if n_judged < 1:
         rep.add("R17", "floor", False, "only %d of %d binary-search sites could be traced to the code that builds the table "
                 "(counted 3 of 4; floor 1; fail closed)" % (n_judged, n_sites), None)
